@@ -21,15 +21,17 @@ GEN = {"und4": "modularity_louvain_und", "und5": "modularity_louvain_und",
        "fund4": "modularity_finetune_und", "dir4": "modularity_louvain_dir",
        "fdir4": "modularity_finetune_dir"}
 GEN_B = ["mod5", "moddir4", "potts5", "nsym4", "nasym4"]      # community_louvain (LouvainBImpl)
-MCB_QUICK = ["q_mod4", "q_nsym3"]
-MCB_THOROUGH = ["q_mod4", "q_moddir3", "q_potts4", "q_nsym3", "q_nasym3", "t_mod4w", "t_nsym4", "t_nasym4", "t_moddir4"]
+MCB_QUICK = ["q_mod4", "q_nsym3", "q_mod3d"]
+MCB_THOROUGH = ["q_mod4", "q_moddir3", "q_potts4", "q_nsym3", "q_nasym3", "t_mod4w", "t_nsym4", "t_nasym4", "t_moddir4",
+                "q_mod3d", "t_moddir3d", "t_potts3d"]
 GEN_S = {"sta4": "modularity_louvain_und_sign", "gja4": "modularity_louvain_und_sign",
          "pos4": "modularity_louvain_und_sign", "fsmp4": "modularity_finetune_und_sign",
          "fneg4": "modularity_finetune_und_sign"}                  # signed routines (LouvainSImpl)
 MCS_QUICK = ["q_fgja3"]
 MCS_THOROUGH = ["q_sta4", "q_fgja3", "t_smp4", "t_fneg4", "t_pos4", "t_fsta4"]
-MC_QUICK = ["q_und4", "q_fdir3"]
-MC_THOROUGH = ["q_und4", "q_und4g", "q_fund4", "q_dir3", "q_fdir3", "t_und4w", "t_fund4w", "t_fdir4"]
+MC_QUICK = ["q_und4", "q_fdir3", "q_und3d"]
+MC_THOROUGH = ["q_und4", "q_und4g", "q_fund4", "q_dir3", "q_fdir3", "t_und4w", "t_fund4w", "t_fdir4",
+               "q_und3d", "t_fund3d", "t_dir3d", "t_und4d"]      # ..d: inputs with self-connections
 GAMMAS = [(1, 1), (3, 4), (5, 4)]
 QTYPES = ["sta", "pos", "smp", "gja", "neg"]
 
